@@ -2791,6 +2791,8 @@ impl VmGreenThread {
 
 impl Drop for VmGreenThread {
     fn drop(&mut self) {
+        #[cfg(feature = "verif")]
+        verif::count_thread_drop(&self.gc_state);
         for header_ptr in &self.heap_list {
             let header = unsafe { &mut **header_ptr };
             unsafe { header.dealloc(&mut self.heap_size) };
